@@ -101,20 +101,20 @@ func (ext *Extents) AdjustIndices(indexBeg, indexEnd ChunkIndexer) bool {
 	ext.indexMu.Lock()
 	defer ext.indexMu.Unlock()
 
-	var changed bool
+	var minChanged, maxChanged bool
 	if ext.MinIndex == nil {
 		ext.MinIndex = indexBeg
-		changed = true
+		minChanged = true
 	} else {
-		ext.MinIndex, changed = ext.MinIndex.Min(indexBeg)
+		ext.MinIndex, minChanged = ext.MinIndex.Min(indexBeg)
 	}
 	if ext.MaxIndex == nil {
 		ext.MaxIndex = indexEnd
-		changed = true
+		maxChanged = true
 	} else {
-		ext.MaxIndex, changed = ext.MaxIndex.Max(indexEnd)
+		ext.MaxIndex, maxChanged = ext.MaxIndex.Max(indexEnd)
 	}
-	return changed
+	return minChanged || maxChanged
 }
 
 // GetNumBlocks returns the number of n-d blocks necessary to cover the given geometry.
